@@ -27,11 +27,12 @@ if [ "$1" = "replay" ]; then ID=$(sed -n 's/.*"property": *"\([^"]*\)".*/\1/p' "
     # C19: yield points are inserted into copies of the evaluator sources (overlay, regenerated from the working tree)
     "$VERIF/bin/gen" "$REPO" "$OV" instrument >/dev/null || exit 2
     "$VERIF/bin/gen" "$REPO" "$OV.race" >/dev/null || exit 2
-    go build -overlay "$OV/overlay.json" -o "$BIN" ./cmd/check || exit 2
-    go build -race -overlay "$OV.race/overlay.json" -o "$BIN.race" ./cmd/check || exit 2
+    go build -ldflags=-checklinkname=0 -overlay "$OV/overlay.json" -o "$BIN" ./cmd/check || exit 2
+    go build -race -ldflags=-checklinkname=0 -overlay "$OV.race/overlay.json" -o "$BIN.race" ./cmd/check || exit 2
   else
     "$VERIF/bin/gen" "$REPO" "$OV" >/dev/null || exit 2
-    go build -overlay "$OV/overlay.json" -o "$BIN" ./cmd/check || exit 2
+    # -checklinkname=0: checks/randseam.go reaches the process-wide generator of math/rand
+    go build -ldflags=-checklinkname=0 -overlay "$OV/overlay.json" -o "$BIN" ./cmd/check || exit 2
   fi
 ) 9>"$VERIF/bin/.lock"
 rc=$?
